@@ -695,3 +695,119 @@ Definition split_join (t : tables) (A B : list Z) (keep_unreferenced no_change_p
   do s <- py_subset t A keep_unreferenced no_change_populations;
   do o <- py_subset t B keep_unreferenced no_change_populations;
   union s o (mapping_of A B) check_shared add_populations.
+
+(* ------------------------------------------------------------------------------------ *)
+(* tsk_table_collection_check_integrity(self, 0) (tables.c 10574-11004, 11133-11180), the *)
+(* call both subset and union make first.  Modelled: everything that is expressible on    *)
+(* this table type, in the C order (nodes, edges, sites, mutations, individuals; first    *)
+(* failing row, first failing test of the row).  Not expressible here and therefore not   *)
+(* modelled: non-finite values, the sequence length (right > L, position >= L), ragged    *)
+(* column offsets, migrations.  0 = no error.                                             *)
+(* ------------------------------------------------------------------------------------ *)
+Definition ERR_SITE_OOB : Z := -205.
+Definition ERR_MUTATION_OOB : Z := -206.
+Definition ERR_NULL_PARENT : Z := -300.
+Definition ERR_NULL_CHILD : Z := -301.
+Definition ERR_BAD_NODE_TIME_ORDERING : Z := -306.
+Definition ERR_BAD_EDGE_INTERVAL : Z := -307.
+Definition ERR_LEFT_LESS_ZERO : Z := -310.
+Definition ERR_BAD_SITE_POSITION : Z := -402.
+Definition ERR_MUTATION_PARENT_DIFFERENT_SITE : Z := -500.
+Definition ERR_MUTATION_PARENT_EQUAL : Z := -501.
+Definition ERR_MUTATION_TIME_YOUNGER_THAN_NODE : Z := -506.
+Definition ERR_MUTATION_TIME_OLDER_THAN_PARENT : Z := -507.
+Definition ERR_MUTATION_TIME_BOTH : Z := -509.
+Definition ERR_INDIVIDUAL_SELF_PARENT : Z := -1701.
+
+Fixpoint first_code {A} (f : A -> Z) (l : list A) : Z :=
+  match l with
+  | [] => 0
+  | a :: l' => let c := f a in if c =? 0 then first_code f l' else c
+  end.
+
+Definition out_of (n x : Z) : bool := (x <? 0) || (n <=? x).
+
+(* 10585-10603 *)
+Definition node_code (np ni : Z) (r : node) : Z :=
+  if (n_pop r <? NULL) || (np <=? n_pop r) then ERR_POPULATION_OOB else
+  if (n_ind r <? NULL) || (ni <=? n_ind r) then ERR_INDIVIDUAL_OOB else 0.
+
+(* 10637-10680 *)
+Definition edge_code (ns : list node) (e : edge) : Z :=
+  let nn := zlen ns in
+  if e_parent e =? NULL then ERR_NULL_PARENT else
+  if out_of nn (e_parent e) then ERR_NODE_OOB else
+  if e_child e =? NULL then ERR_NULL_CHILD else
+  if out_of nn (e_child e) then ERR_NODE_OOB else
+  if e_left e <? 0 then ERR_LEFT_LESS_ZERO else
+  if e_right e <=? e_left e then ERR_BAD_EDGE_INTERVAL else
+  if node_time ns (e_parent e) <=? node_time ns (e_child e) then ERR_BAD_NODE_TIME_ORDERING else 0.
+
+(* 10735-10743 *)
+Definition site_code (s : site) : Z := if s_pos s <? 0 then ERR_BAD_SITE_POSITION else 0.
+
+(* 10781-10845; state = previous row's site and the known / unknown counters of the run *)
+Fixpoint mutation_codes (t : tables) (ms : list mutation) (j : Z) (prev : option Z) (nk nu : Z) : Z :=
+  match ms with
+  | [] => 0
+  | m :: ms' =>
+      if out_of (zlen (t_sites t)) (m_site m) then ERR_SITE_OOB else
+      if out_of (zlen (t_nodes t)) (m_node m) then ERR_NODE_OOB else
+      if (m_parent m <? NULL) || (zlen (t_mutations t) <=? m_parent m) then ERR_MUTATION_OOB else
+      if m_parent m =? j then ERR_MUTATION_PARENT_EQUAL else
+      if match m_time m with Some tm => tm <? node_time (t_nodes t) (m_node m) | None => false end
+      then ERR_MUTATION_TIME_YOUNGER_THAN_NODE else
+      let reset := match prev with Some s => negb (s =? m_site m) | None => false end in
+      let nk0 := if reset then 0 else nk in
+      let nu0 := if reset then 0 else nu in
+      let nk1 := match m_time m with Some _ => nk0 + 1 | None => nk0 end in
+      let nu1 := match m_time m with Some _ => nu0 | None => nu0 + 1 end in
+      if (0 <? nu1) && (0 <? nk1) then ERR_MUTATION_TIME_BOTH else
+      let c := if m_parent m =? NULL then 0 else
+               match getz (t_mutations t) (m_parent m) with
+               | Ok pm =>
+                   if negb (m_site pm =? m_site m) then ERR_MUTATION_PARENT_DIFFERENT_SITE else
+                   match m_time m, m_time pm with
+                   | Some tm, Some tp => if tp <? tm then ERR_MUTATION_TIME_OLDER_THAN_PARENT else 0
+                   | _, _ => 0
+                   end
+               | _ => 0
+               end in
+      if c =? 0 then mutation_codes t ms' (j + 1) (Some (m_site m)) nk1 nu1 else c
+  end.
+
+(* 10948-10967 *)
+Fixpoint individual_codes (ni : Z) (rows : list individual) (j : Z) : Z :=
+  match rows with
+  | [] => 0
+  | r :: rows' =>
+      let c := first_code (fun p => if negb (p =? NULL) && out_of ni p then ERR_INDIVIDUAL_OOB
+                                    else if p =? j then ERR_INDIVIDUAL_SELF_PARENT else 0) (i_parents r) in
+      if c =? 0 then individual_codes ni rows' (j + 1) else c
+  end.
+
+Definition integrity_code (t : tables) : Z :=
+  let c1 := first_code (node_code (zlen (t_populations t)) (zlen (t_individuals t))) (t_nodes t) in
+  if negb (c1 =? 0) then c1 else
+  let c2 := first_code (edge_code (t_nodes t)) (t_edges t) in
+  if negb (c2 =? 0) then c2 else
+  let c3 := first_code site_code (t_sites t) in
+  if negb (c3 =? 0) then c3 else
+  let c4 := mutation_codes t (t_mutations t) 0 None 0 0 in
+  if negb (c4 =? 0) then c4 else
+  individual_codes (zlen (t_individuals t)) (t_individuals t) 0.
+
+Definition check_integrity0 (t : tables) : res unit :=
+  let c := integrity_code t in if c =? 0 then Ok tt else Err c.
+
+(* the functions as the library runs them: guard first (subset 12917, union 13211-13218) *)
+Definition subset_checked (t : tables) (nodes : list Z) (keep_unreferenced no_change_populations : bool)
+  : res tables :=
+  do _ <- check_integrity0 t;
+  subset t nodes keep_unreferenced no_change_populations.
+
+Definition union_checked (self other : tables) (mapping : list Z) (check_shared add_populations : bool)
+  : res tables :=
+  do _ <- check_integrity0 self;
+  do _ <- check_integrity0 other;
+  union self other mapping check_shared add_populations.
